@@ -400,12 +400,9 @@ fn iterate<'c, D: TestDriver<Error = DrvError> + HasScript<'c>>(
         }
         let item = catch_unwind(AssertUnwindSafe(|| it.next()));
         match item {
-            Err(_) if post > 0 => {
-                // what happens after an error item is outside C10's quantifier: recorded, not judged
-                lines.borrow_mut().push(format!("# panic after an error item: {}", take_panic()));
-                return false;
-            }
             Err(_) => {
+                // also behind an error item: every `next()` returns a row, an error item or the end
+                // (C10_run_no_panic_continued)
                 lines.borrow_mut().push(format!("item {k} panic {}", take_panic()));
                 return true;
             }
@@ -519,7 +516,12 @@ pub fn run_dynamic(case: &Case, src: &str) -> ImpRun {
     let all = lines.borrow().clone();
     let cut = all.iter().position(|l| l == "posterr").unwrap_or(all.len());
     let post_lines: Vec<String> = all.iter().filter(|l| *l != "posterr").cloned().collect();
-    let tail_lines = if cut < all.len() { comparable_tail(&all[..cut], &all[cut + 1..]) } else { vec![] };
+    let mut tail_lines = if cut < all.len() { comparable_tail(&all[..cut], &all[cut + 1..]) } else { vec![] };
+    if tail_lines.last().map(|l| l.starts_with("item ") && l.contains(" none")).unwrap_or(false) {
+        // the draws of the whole run, those made before a failing sub-expression included
+        let draws = rng_log.iter().filter(|e| matches!(e, RngEvent::Draw(_))).count();
+        tail_lines.push(format!("rng draws={draws}"));
+    }
     let mut lines: Vec<String> = all[..cut].to_vec();
     if lines.last().map(|l| l.starts_with("item ") && l.contains(" none")).unwrap_or(false) {
         let draws = rng_log.iter().filter(|e| matches!(e, RngEvent::Draw(_))).count();
@@ -528,53 +530,11 @@ pub fn run_dynamic(case: &Case, src: &str) -> ImpRun {
     ImpRun { lines, post_lines, tail_lines, script, epochs, rng_log, panicked }
 }
 
-/// The part of the trace behind the first error item that the model reproduces: the run is followed while the
-/// error items come from the IO step (a driver call was made during that `next()`), up to five error items in
-/// all; it ends with the first evaluation error (no call) and — when a virtual signal draws random numbers —
-/// with the first error found in an answer.  (`Main.lean: runItems` applies the same rule.)
-pub fn comparable_tail(prefix: &[String], tail: &[String]) -> Vec<String> {
-    let virt_random = prefix
-        .first()
-        .and_then(|l| l.find("virt=").map(|i| l[i..].contains("(call h72616e646f6d")))
-        .unwrap_or(false);
-    // the first error item: the last item line of the prefix
-    let sig: Vec<&String> = prefix.iter().filter(|l| !l.starts_with('#')).collect();
-    let last_item = match sig.iter().rposition(|l| l.starts_with("item ")) {
-        Some(i) => i,
-        None => return vec![],
-    };
-    let called = last_item > 0 && sig[last_item - 1].starts_with("call ");
-    let is_driver = sig[last_item].contains(" err driver:");
-    if !called || (!is_driver && virt_random) {
-        return vec![];
-    }
-    let mut out = vec![];
-    let mut n_err = 1;
-    let mut call_since_item = false;
-    for l in tail {
-        if l.starts_with("rng ") {
-            continue;
-        }
-        out.push(l.clone());
-        if l.starts_with("call ") {
-            call_since_item = true;
-        } else if l.starts_with("item ") {
-            let w: Vec<&str> = l.split(' ').collect();
-            match w.get(2).copied() {
-                Some("row") => {}
-                Some("err") => {
-                    n_err += 1;
-                    let is_driver = l.contains(" err driver:");
-                    if !call_since_item || n_err >= 5 || (!is_driver && virt_random) {
-                        break;
-                    }
-                }
-                _ => break,
-            }
-            call_since_item = false;
-        }
-    }
-    out
+/// The part of the trace behind the first error item that the model reproduces: all of it — the run is followed
+/// behind every error item (`Model/AfterError`: the state the code is left in), up to five error items in all
+/// (`iterate` stops there, and so does `Main.lean: runItems`).
+pub fn comparable_tail(_prefix: &[String], tail: &[String]) -> Vec<String> {
+    tail.iter().filter(|l| !l.starts_with("rng ")).cloned().collect()
 }
 
 /// static run (`try_iter_static`) of an already bound test
